@@ -60,6 +60,9 @@ class ConcRunner:
             runner.max_parallel = max(runner.max_parallel, runner.running_now)
             try:
                 ctrl.yield_point("cb-enter", key)
+                # a callback that takes a while (other threads get that many turns meanwhile)
+                for _w in range(runner.scn.get("cb_len", 0)):
+                    ctrl.yield_point("cb-work", key)
                 b = cell.get("barrier")
                 if b is not None:
                     bar = runner.barriers[b]
@@ -267,9 +270,28 @@ class ConcRunner:
         mon = sys.monitoring
         import scheduler.threading.scheduler as m
 
+        import scheduler.base.job as bj
+        import scheduler.base.job_timer as bt
+        import scheduler.threading.job as tj
+
         codes = []
         for name in ("delete_job", "delete_jobs", "get_jobs", "exec_jobs", "_Scheduler__schedule", "_Scheduler__exec_jobs"):
             f = getattr(m.Scheduler, name, None)
+            if f is not None and hasattr(f, "__code__"):
+                codes.append(f.__code__)
+        # the worker loop and everything a worker / the rescheduling loop does on a job
+        w = getattr(m, "_exec_job_worker", None)
+        if w is not None and hasattr(w, "__code__"):
+            codes.append(w.__code__)
+        for cls, names in ((tj.Job, ("_exec", "_calc_next_exec")), (bj.BaseJob, ("_calc_next_exec",)),
+                           (bt.JobTimer, ("calc_next_exec",))):
+            for name in names:
+                f = cls.__dict__.get(name)
+                if f is not None and hasattr(f, "__code__"):
+                    codes.append(f.__code__)
+        for name in ("has_attempts_remaining", "attempts", "failed_attempts"):
+            pr = tj.Job.__dict__.get(name)
+            f = getattr(pr, "fget", None)
             if f is not None and hasattr(f, "__code__"):
                 codes.append(f.__code__)
         self._codes = codes
